@@ -34,6 +34,8 @@ def runDataCopy : List String := ["iocopy.UDP", "iocopy.Bidirectional", "bytesSe
 def tryCloseWrite : List String := ["tcpConn.CloseWrite", "cw.CloseWrite"]
 def udpBatchWriter_add : List String := ["len", "len"]
 def udpBatchWriter_flush : List String := ["pktConn.WriteBatch", "conn.Write"]
+def udpTunnelConn_ReceivePacket : List String := ["GetReader", "make", "io.ReadFull", "make", "io.ReadFull"]
+def udpTunnelConn_SendPacket : List String := ["GetWriter", "make", "writer.Write", "writer.Write"]
 end Skel
 
 end Gen
